@@ -31,7 +31,7 @@ import (
 )
 
 func init() {
-	register(&Prop{ID: "C20", Module: "V.C20.Check", Gen: c20Gen, Quick: 64, Thorough: 400, Shard: 80})
+	register(&Prop{ID: "C20", Module: "V.C20.Check", Gen: c20Gen, Quick: 40, Thorough: 400, Shard: 80})
 }
 
 var c20Ruler *textmeasure.Ruler
